@@ -896,6 +896,10 @@ class _StarExprRule(SyntaxRule):
             ancestor = node.parent
         else:
             ancestor = _skip_parens_bottom_up(node)
+            if ancestor.type in ('arglist', 'classdef', 'decorator') \
+                    or ancestor.type == 'trailer' and ancestor.children[0] == '(':
+                # Before Python 3.9 `f((*a))` was the same as `f(*a)`.
+                return
         # starred expression not in tuple/list/set
         if ancestor.type not in (*_STAR_EXPR_PARENTS, 'dictorsetmaker') \
                 and not (ancestor.type == 'atom' and ancestor.children[0] != '('):
